@@ -1,6 +1,7 @@
 import Mc.Drv.Merge
 import Mc.Drv.Apply
 import Mc.Drv.SyncHandle
+import Mc.Drv.HookCalls
 open Mc Mc.Drv
 
 def dispatch (c : J) : Res :=
@@ -8,6 +9,7 @@ def dispatch (c : J) : Res :=
   | "merge" => handleMerge c
   | "apply" => handleApply c
   | "sync" => handleSync c
+  | "hookcalls" => handleHookCalls c
   | k => { agree := false, where_ := s!"unknown kind {k}" }
 
 partial def loop (h : IO.FS.Stream) (out : IO.FS.Stream) : IO Unit := do
